@@ -78,7 +78,7 @@ def add_stages(rng, case):
 
 def gen_outcomes(rng, n, p_ok=0.65):
     return [('done:%d' % rng.randrange(48) if rng.random() < 0.8 else rng.choice(['intstatus', 'donenone'])) if rng.random() < p_ok
-            else rng.choice(OUTCOMES[1:9]) + ':%d' % rng.randrange(840) for _ in range(n)]
+            else rng.choice(OUTCOMES[1:9] + ['clash']) + ':%d' % rng.randrange(840) for _ in range(n)]
 
 
 def gen_case(rng, focus, big=False):
@@ -160,6 +160,17 @@ def gen_case(rng, focus, big=False):
         case['no_model'] = True
         for run in runs:
             run['outcomes'][rng.randrange(n)] = 'roown:%d' % rng.randrange(2)
+    r = rng.random()
+    if r < 0.08:
+        case['warn_error'] = True        # the caller's process turns warnings into errors
+    elif r < 0.14:
+        case['log_env'] = True           # logging at DEBUG level, tasks log the environment they get
+        case['no_model'] = True          # (the master then reads statuses for its log messages: oracle only)
+    if rng.random() < 0.15:
+        case['pytasks'] = [t for t in range(n) if rng.random() < 0.6]    # PythonTask objects
+    if nruns > 1 and rng.random() < 0.15:
+        for run in runs[1:]:
+            run['tz'] = rng.choice(['UTC+11', 'UTC-12', 'America/New_York', 'Asia/Tokyo', 'UTC'])
     if rng.random() < 0.12:
         case['falsy'] = [t for t in range(n) if rng.random() < 0.5]     # task objects that are falsy
     if nruns > 1 and rng.random() < 0.4:
@@ -209,6 +220,23 @@ CORPUS = [
      'runs': [{'outcomes': ['roown:0'], 'strategy': 'uniform', 'seed': 50}]},
     {'n': 3, 'hard': [[], [0], [0]], 'soft': [[], [], []], 'workers': 3, 'falsy': [0, 2],
      'runs': [{'outcomes': ['done', 'done', 'done'], 'strategy': 'uniform', 'seed': 46}]},
+    # C02/C03: an update that cannot be merged (FAILED, dependents skipped, nobody waits for ever)
+    {'n': 3, 'hard': [[], [0], []], 'soft': [[], [], [0]], 'workers': 2,
+     'runs': [{'outcomes': ['clash', 'done', 'done:20'], 'strategy': 'uniform', 'seed': 51}]},
+    # C01: PythonTask objects scheduled again on another environment read the new one
+    {'n': 3, 'hard': [[], [0], [1]], 'soft': [[], [], []], 'workers': 2, 'pytasks': [0, 1, 2],
+     'runs': [{'outcomes': ['done', 'done', 'done'], 'strategy': 'uniform', 'seed': 52},
+              {'outcomes': ['done', 'done', 'done'], 'lost': [0], 'strategy': 'uniform', 'seed': 53}]},
+    # C02: process-wide settings of the caller (warnings as errors; DEBUG logging, tasks log their environment)
+    {'n': 3, 'hard': [[], [0], [1]], 'soft': [[], [], []], 'workers': 2, 'warn_error': True,
+     'runs': [{'outcomes': ['donenone', 'done', 'failnone'], 'strategy': 'uniform', 'seed': 54}]},
+    {'n': 3, 'hard': [[], [0], []], 'soft': [[], [], [0]], 'workers': 2, 'log_env': True, 'no_model': True,
+     'runs': [{'outcomes': ['done', 'raise', 'done'], 'strategy': 'pct', 'seed': 55}]},
+    # C04: the time zone of the process changes between two runs
+    {'n': 3, 'hard': [[], [0], [1]], 'soft': [[], [], []], 'workers': 2,
+     'runs': [{'outcomes': ['done', 'done', 'done'], 'strategy': 'uniform', 'seed': 56},
+              {'outcomes': ['done', 'done', 'done'], 'lost': [0], 'tz': 'UTC+11', 'strategy': 'uniform', 'seed': 57},
+              {'outcomes': ['done', 'done', 'done'], 'lost': [1], 'tz': 'UTC-12', 'strategy': 'uniform', 'seed': 58}]},
     # C03: the master cannot read a status (initial environment; update of another task): it may raise
     # (oracle only), but schedule() comes back and its workers are gone
     {'n': 3, 'hard': [[], [], [0]], 'soft': [[], [], []], 'workers': 2, 'no_model': True, 'may_raise': True, 'only': ['C03'],
@@ -420,7 +448,15 @@ def oracle_c04(ctx, case, run):
         return
     rc = replay_case(case, run)
     n = case['n']
-    full = full_deps(case)
+    full, hard_d = full_deps(case), hard_deps(case)
+    if case.get('stages'):
+        # C04 speaks about the tasks a task DIRECTLY depends on.  A dependency on a nested graph is, by the
+        # documented grafting rule, a dependency on its terminal nodes only (the others are reached through
+        # them, possibly through a task that is not DONE): use the flattened graphs the scheduler prepared
+        # (their ordering constraints are checked semantically by C01's oracle and by C16)
+        if run.get('impl_deps') is None:
+            return
+        full, hard_d = run['impl_deps'], run['impl_hdeps']
     env = run['env_after']
     for t in range(n):
         e = env[t]
@@ -433,7 +469,12 @@ def oracle_c04(ctx, case, run):
                     ctx.oracle_failure(f't{t} is DONE but its DONE dependency t{d} finished at {ed[3]}, '
                                        f'after t{t} started at {e[2]} :: {brief(case)}', rc,
                                        key='stale-done')
-        for d in hard_deps(case)[t]:
+            if ed is not None and ed[0] == 'DONE' and run['execs'][d] > 0 and run['execs'][t] == 0:
+                # whatever the recorded clocks say: d ran during this run, t's last execution is older
+                ctx.oracle_failure(f't{t} is DONE and was not executed in this run although its DONE '
+                                   f'dependency t{d} was: t{d} finished after t{t} started '
+                                   f':: {brief(case)}', rc, key='stale-done-by-history')
+        for d in hard_d[t]:
             ed = env[d]
             if ed is not None and ed[0] in ('FAILED', 'SKIPPED'):
                 ctx.oracle_failure(f't{t} is DONE but its hard dependency t{d} is {ed[0]} '
@@ -453,7 +494,7 @@ def oracle_c04(ctx, case, run):
         trans = closure(t, set())
         if all(env0[d] is not None and env0[d][0] == 'DONE' for d in trans) \
                 and all(run['execs'][d] == 0 for d in trans) \
-                and consistent_sub(env0, full, hard_deps(case), trans | {t}):
+                and consistent_sub(env0, full, hard_d, trans | {t}):
             if run['execs'][t] != 0 or env[t] != env0[t]:
                 ctx.oracle_failure(f't{t} was DONE with all transitive dependencies DONE and not '
                                    f're-executed, yet it was executed {run["execs"][t]} times / its entry '
@@ -649,7 +690,7 @@ def run(ctx, focus):
         for case, res in zip(extra, res2):
             if res['ok']:
                 for run_ in res['runs']:
-                    ORACLES[focus](ctx, case, run_)
+                    ORACLES[focus](ctx, crun(case, run_), run_)
         ctx.count('search_phase_cases', len(res2))
         ctx.notes.append(f'search phase after a correspondence break: {len(res2)} more histories run '
                          f'through the oracle only')
